@@ -219,8 +219,8 @@ prop("C15", "other",
      "shift site in SnmpInt::push_ber/decode, the OID conversions and push_tag_len (engine `num`); the length-form table of "
      "push_tag_len (short / 0x81 / 0x82 with the octets in order and ensure_size covering them); the fixed encodings (ZERO_BER, "
      "NULL_BER, EMPTY_BER, version constants) are minimal TLVs; PDU tag tables of encoder and decoder agree with RFC 3416."
-     " Added in rounds 4-5: decoded flag_* are bits 0/1/2 of the octet for all 256 values (mirror of the encoder's table); ensure_size refuses only what does not fit; push_tagged / push_tag_len write a header of at least two octets on success, also for empty contents; literal one-octet INTEGER range. Added in rounds 6-7: bit-field composition; encoder narrowing casts; capacity exits of value-consuming loops (unrolled iteration by iteration); a pooled buffer is reset before it returns to the pool.",
-     [("C15.nowrap", numrules.c15_nowrap), ("C15.len", codec.length_forms), ("C15.hdr", codec.hdr_reject), ("C15.pdu", codec.pdu_tags), ("C15.oid", codec.oid_text), ("C15.nested", crypto.nested_lengths), ("C15.mirror", crypto.layout_mirror), ("C15.dec", only(codec.width, "SnmpInt")), ("C15.handlen", crypto.hand_lengths), ("C15.flags", crypto.msg_flags_decode), ("C15.msgflags", crypto.msg_flags), ("C15.tail", codec.tail_cover), ("C15.shiftguard", codec.shift_guards), ("C15.ensure", only(numrules.c17_sites, "ensure_size", "push_tag_len", "push_tagged")), ("C15.intlit", crypto.literal_int_tlv), ("C15.capacity", codec.capacity_exits), ("C15.op", crypto.op_tables), ("C15.oidtext", codec.oid_print), ("C15.enccast", codec.encoder_casts), ("C15.bits", bits.compose), ("C15.pool", only(crypto.fresh_buffers, "reset-before-return"))])
+     " Added in rounds 4-5: decoded flag_* are bits 0/1/2 of the octet for all 256 values (mirror of the encoder's table); ensure_size refuses only what does not fit; push_tagged / push_tag_len write a header of at least two octets on success, also for empty contents; literal one-octet INTEGER range. Added in rounds 6-7: bit-field composition; encoder narrowing casts; capacity exits of value-consuming loops (unrolled iteration by iteration); a pooled buffer is reset before it returns to the pool; the request decoders refuse for structure only, never for a field's value.",
+     [("C15.nowrap", numrules.c15_nowrap), ("C15.len", codec.length_forms), ("C15.hdr", codec.hdr_reject), ("C15.pdu", codec.pdu_tags), ("C15.oid", codec.oid_text), ("C15.nested", crypto.nested_lengths), ("C15.mirror", crypto.layout_mirror), ("C15.dec", only(codec.width, "SnmpInt")), ("C15.handlen", crypto.hand_lengths), ("C15.flags", crypto.msg_flags_decode), ("C15.msgflags", crypto.msg_flags), ("C15.tail", codec.tail_cover), ("C15.shiftguard", codec.shift_guards), ("C15.ensure", only(numrules.c17_sites, "ensure_size", "push_tag_len", "push_tagged")), ("C15.intlit", crypto.literal_int_tlv), ("C15.capacity", codec.capacity_exits), ("C15.op", crypto.op_tables), ("C15.oidtext", codec.oid_print), ("C15.enccast", codec.encoder_casts), ("C15.bits", bits.compose), ("C15.pool", only(crypto.fresh_buffers, "reset-before-return")), ("C15.reqdec", codec.request_decoder_rejections)])
 
 from .rules import crypto  # noqa: E402
 
